@@ -48,7 +48,9 @@ def run_one(p):
     adaptive = p['adaptive'] and kname != 'sum_power_laplace'
     model = RFM(kernel=kname, bandwidth=p['bandwidth'], exponent=p['q'], iters=p['iters'], device='cpu', verbose=False,
                 bandwidth_mode='adaptive' if adaptive else 'constant',
-                tuning_metric='accuracy' if p.get('maximize') else 'mse', diag=p['diag'], **kw)
+                tuning_metric='accuracy' if p.get('maximize') else 'mse', diag=p['diag'],
+                # an exhausted time budget ends the loop after its first round; the final solve still has to match the stored state
+                time_limit_s=p.get('tlimit'), **kw)
     if p.get('refit'):
         # object history: the same estimator was fitted before on another training set (same or other size)
         n0 = n if p['refit'] == 'same-size' else max(4, n - 3)
@@ -98,6 +100,15 @@ def execute(chunk):
             if not (r['pres'] <= r['allow'] * 4 + 1e-9):
                 res['failures'].append({'signature': 'C02:prediction-identity',
                                         'detail': f'max|predict(centers) - (Y - lam alpha)| = {r["pres"]:.3e} > {4 * r["allow"]:.3e}'})
+            if p.get('tlimit') is not None:
+                # the time budget is not part of the Lean selection machine: these cases are judged by the property oracle alone
+                res['nontrivial'] = ['time-limited', p['kernel'], p['diag'], p['solver'], p['iters'], p['return_best'], p['n'], p['dseed']]
+                res['dist'] = {'kernel': p['kernel'][0], 'solver': p['solver'], 'iters': p['iters'], 'selected': 'time-limited (oracle only)',
+                               'flags': f'best={p["return_best"]},early={p["early"]},adaptive={r["adaptive"]}', 'n_gt_25': p['n'] > 25}
+                res['sample'] = {'kernel': p['kernel'], 'solver': p['solver'], 'iters': p['iters'], 'residual': r['resid'], 'allowance': r['allow'],
+                                 'evaluations': r['n_evals']}
+                out.append(res)
+                continue
             sc = r['scores']
             full = sc + [sc[-1]] * (p['iters'] + 1 - len(sc))  # real-score runs that stopped early: pad (never read)
             q = {'op': 'fitloop', 'maximize': bool(p.get('maximize')), 'returnBest': p['return_best'], 'earlyStop': p['early'],
@@ -165,6 +176,12 @@ def gen_cases(run):
         c['agop_best'] = r.random() < 0.5
     for c in cases:
         c['refit'] = r.choice([None, None, None, 'same-size', 'other-size'])
+    # a time budget that is exhausted after the first round (time_limit_s far below one round): with and without restoration
+    extra = []
+    for k, c in enumerate(cases[: max(24, len(cases) // 10)]):
+        if c['iters'] >= 1:
+            extra.append(dict(c, family='time-limited', tlimit=1e-9, scores=None, refit=None, maximize=False, return_best=bool(k % 2), early=bool((k // 2) % 2)))
+    cases += extra
     for c in cases:  # lpq needs q <= p; fix up
         if c['kernel'][0] == 'lpq':
             c['q'] = min(c['q'], c['kernel'][1]['norm_p'])
